@@ -79,8 +79,13 @@ type callRec struct {
 
 	reqRuns, fbRuns          int
 	reqStart, reqEnd, fbStart stamp
-	reqErr                   *callErr
-	panicVal                 *callPanic
+	reqErr                   error // the request's own error (values_test.go)
+	panicVal                 any   // what the request panics with (or a description of it)
+	panicKind                int
+	raise                    func()         // panics with the call's panic value
+	samePanic                func(any) bool // is it the value raise() panicked with?
+	predCalls                int            // calls of the acceptability predicate given with the call
+	predForeign              error          // ... with an error that is not the request's own
 	fbOwn                    *fbErr
 	fbArg, fbRet             error
 	gotErr                   error
@@ -157,25 +162,32 @@ func (p *plan) success() bool {
 	return false
 }
 
-func acceptable(err error) bool {
-	if err == nil {
-		return true
-	}
-	var ce *callErr
-	if errors.As(err, &ce) {
-		return ce.acceptable
-	}
-	return false
-}
-
 // call performs one planned call against the breaker, observes everything observable and
 // checks the per-call clauses.
 func (w *world) call(p *plan) *callRec {
 	r := w.r
 	c := &callRec{id: len(w.calls), p: p}
-	c.reqErr = &callErr{id: c.id, acceptable: p.outcome == outAccErr}
-	c.panicVal = &callPanic{id: c.id}
+	c.reqErr = mkReqErr(c, p.kind)
+	c.setPanic(p.kind)
 	c.fbOwn = &fbErr{id: c.id}
+	// the acceptability predicate of the call is the harness' own: the class is the plan's,
+	// whatever the identity of the error
+	acceptable := func(err error) bool {
+		if err == nil {
+			return true
+		}
+		c.predCalls++
+		if !same(err, c.reqErr) && c.predForeign == nil {
+			c.predForeign = err
+		}
+		return p.outcome == outAccErr
+	}
+	switch p.outcome {
+	case outErr, outAccErr:
+		r.Probe("error-identity-" + errKindNames[p.kind%nKinds])
+	case outPanic:
+		r.Probe("panic-value-" + panicKindNames[p.kind%nKinds])
+	}
 	w.calls = append(w.calls, c)
 
 	var ctx context.Context
@@ -216,7 +228,7 @@ func (w *world) call(p *plan) *callRec {
 		case outErr, outAccErr:
 			return c.reqErr
 		case outPanic:
-			panic(c.panicVal)
+			c.raise()
 		}
 		return nil
 	}
@@ -377,8 +389,8 @@ func (w *world) classify(c *callRec, ctx context.Context, doneAtInv, doneAtRet b
 		switch {
 		case isAllow:
 		case p.outcome == outPanic:
-			if !c.panicked || c.gotPanic != any(c.panicVal) {
-				r.Fail("panic-not-reraised", "call %d (%s): request panicked with %p, call ended with panicked=%v value=%v", c.id, entryNames[p.entry], c.panicVal, c.panicked, c.gotPanic)
+			if !c.panicked || !c.samePanic(c.gotPanic) {
+				r.Fail("panic-not-reraised", "call %d (%s): request panicked with %v (%s), call ended with panicked=%v value=%T(%v)", c.id, entryNames[p.entry], c.panicVal, panicKindNames[c.panicKind], c.panicked, c.gotPanic, c.gotPanic)
 				return
 			}
 			r.Probe("panic-reraised")
@@ -387,8 +399,12 @@ func (w *world) classify(c *callRec, ctx context.Context, doneAtInv, doneAtRet b
 			if p.outcome != outOK {
 				want = c.reqErr
 			}
-			if c.gotErr != want {
-				r.Fail("error-changed", "call %d (%s): request returned %v, call returned %v", c.id, entryNames[p.entry], want, c.gotErr)
+			if !same(c.gotErr, want) {
+				r.Fail("error-changed", "call %d (%s): request returned %T(%v) (%s), call returned %T(%v)", c.id, entryNames[p.entry], want, want, errKindNames[p.kind%nKinds], c.gotErr, c.gotErr)
+				return
+			}
+			if c.predForeign != nil {
+				r.Fail("predicate-argument", "call %d (%s): request returned %T(%v), the acceptability predicate was asked about %T(%v)", c.id, entryNames[p.entry], want, want, c.predForeign, c.predForeign)
 				return
 			}
 		}
